@@ -758,9 +758,13 @@ mod pattern_impl {
         haystack: &'t str,
         regex: &'r Regex,
         current_pos: usize,
+        // Where the next forward search starts; ahead of current_pos after an empty match.
+        search_pos: usize,
         done: bool,
         // For reverse searching
         reverse_pos: usize,
+        // Whether the empty match at reverse_pos (if any) was already reported.
+        reverse_after_empty: bool,
         reverse_done: bool,
     }
 
@@ -770,23 +774,30 @@ mod pattern_impl {
                 haystack,
                 regex,
                 current_pos: 0,
+                search_pos: 0,
                 done: false,
                 reverse_pos: haystack.len(),
+                reverse_after_empty: false,
                 reverse_done: false,
             }
         }
 
-        fn find_last_match_before(&self, pos: usize) -> Option<super::Match> {
-            // Find all matches up to the given position and return the last one
-            let mut last_match = None;
-            for m in self.regex.find_from(self.haystack, 0) {
-                if m.end() <= pos {
-                    last_match = Some(m);
-                } else {
-                    break;
+        fn find_last_step_before(&self, pos: usize, after_empty: bool) -> Option<SearchStep> {
+            // Replay the forward steps and return the last one before the reverse position.
+            // An empty match at pos comes after the step ending at pos.
+            let mut forward = Self::new(self.regex, self.haystack);
+            let mut last_step = None;
+            loop {
+                match forward.next() {
+                    step @ (SearchStep::Match(a, b) | SearchStep::Reject(a, b))
+                        if b < pos || (b == pos && (a < b || !after_empty)) =>
+                    {
+                        last_step = Some(step);
+                    }
+                    _ => break,
                 }
             }
-            last_match
+            last_step
         }
     }
 
@@ -801,7 +812,7 @@ mod pattern_impl {
             }
 
             // Try to find the next match starting from current position
-            if let Some(m) = self.regex.find_from(self.haystack, self.current_pos).next() {
+            if let Some(m) = self.regex.find_from(self.haystack, self.search_pos).next() {
                 let match_start = m.start();
                 let match_end = m.end();
 
@@ -810,16 +821,19 @@ mod pattern_impl {
                     let reject_end = match_start;
                     let reject_start = self.current_pos;
                     self.current_pos = match_start;
+                    self.search_pos = match_start;
                     return SearchStep::Reject(reject_start, reject_end);
                 }
 
                 // Return the match
                 self.current_pos = match_end;
+                self.search_pos = match_end;
 
                 // Handle zero-width matches to avoid infinite loops
                 if match_start == match_end {
-                    // For zero-width matches, we need to advance at least one byte
-                    // to avoid infinite loops
+                    // For zero-width matches, we need to search at least one byte
+                    // further to avoid infinite loops. The skipped text is rejected
+                    // by the next step.
                     if match_end < self.haystack.len() {
                         // Find the next character boundary
                         let mut next_pos = match_end + 1;
@@ -828,7 +842,7 @@ mod pattern_impl {
                         {
                             next_pos += 1;
                         }
-                        self.current_pos = next_pos;
+                        self.search_pos = next_pos;
                     } else {
                         // We're at the end of the string
                         self.done = true;
@@ -858,47 +872,14 @@ mod pattern_impl {
                 return SearchStep::Done;
             }
 
-            // Try to find the last match before current reverse position
-            if let Some(m) = self.find_last_match_before(self.reverse_pos) {
-                let match_start = m.start();
-                let match_end = m.end();
-
-                // Handle any gap between match end and current reverse position
-                if match_end < self.reverse_pos {
-                    let reject_start = match_end;
-                    let reject_end = self.reverse_pos;
-                    self.reverse_pos = match_end;
-                    return SearchStep::Reject(reject_start, reject_end);
+            // The reverse steps are the forward steps, last to first.
+            match self.find_last_step_before(self.reverse_pos, self.reverse_after_empty) {
+                Some(step @ (SearchStep::Match(start, end) | SearchStep::Reject(start, end))) => {
+                    self.reverse_pos = start;
+                    self.reverse_after_empty = start == end;
+                    step
                 }
-
-                // Return the match
-                self.reverse_pos = match_start;
-
-                // Handle zero-width matches
-                if match_start == match_end {
-                    // For zero-width matches, move back by one character
-                    if match_start > 0 {
-                        let mut prev_pos = match_start - 1;
-                        while prev_pos > 0 && !self.haystack.is_char_boundary(prev_pos) {
-                            prev_pos -= 1;
-                        }
-                        self.reverse_pos = prev_pos;
-                    } else {
-                        // We're at the beginning of the string
-                        self.reverse_done = true;
-                    }
-                }
-
-                SearchStep::Match(match_start, match_end)
-            } else {
-                // No more matches, reject remaining text if any
-                if self.reverse_pos > 0 {
-                    let reject_start = 0;
-                    let reject_end = self.reverse_pos;
-                    self.reverse_pos = 0;
-                    self.reverse_done = true;
-                    SearchStep::Reject(reject_start, reject_end)
-                } else {
+                _ => {
                     self.reverse_done = true;
                     SearchStep::Done
                 }
